@@ -146,12 +146,13 @@ Definition pend_judge := judge pend_model pend_oeqb pend_ok (fun _ => 0%N).
    input: the round's state (1 GetCommitReports, 2 GetMessages, 3 Filter) and the world as it was at the first
    observation of the round's cycle: per chain the commit reports on the destination and the executed set (runs).
    output: the outcome's pending commit reports (chain, report), by chain and start, and the (chain, sequence number)
-   pairs of the messages in the outcome's execution report.
+   pairs of the messages in the report the DON transmits (execute.Plugin.Reports on the outcome, decoded with the report
+   codec), and the same pairs read from the outcome's own Report field.
    Conditions of the simulated histories: all (honest) oracles read the same world within a cycle, every committed
    message is readable, unordered messages (nonce 0), no token data, nothing costly, everything fits the limits. *)
 Definition snap_t := list (N * list rep * list range).
 Definition hist_in := (N * snap_t)%type.
-Definition hist_out := res (list (N * rep) * list (N * N)).
+Definition hist_out := res (list (N * rep) * list (N * N) * list (N * N)).
 
 Fixpoint seq_from (a : N) (n : nat) : list N :=
   match n with O => [] | S n' => a :: seq_from (a + 1) n' end.
@@ -166,10 +167,10 @@ Definition cycle_pending (snap : snap_t) : list (N * rep) :=
 Definition hist_model (i : hist_in) : hist_out :=
   let '(st, snap) := i in
   let pend := cycle_pending snap in
-  if N.eqb st 3 then Ok ([], flat_map (fun cr => map (pair (fst cr)) (unexecuted (snd cr))) pend)
-  else Ok (pend, []).
+  if N.eqb st 3 then let ms := flat_map (fun cr => map (pair (fst cr)) (unexecuted (snd cr))) pend in Ok ([], ms, ms)
+  else Ok (pend, [], []).
 Definition hist_oeqb : hist_out -> hist_out -> bool :=
-  res_eqb (pair_eqb (list_eqb (pair_eqb N.eqb rep_eqb)) (list_eqb (pair_eqb N.eqb N.eqb))).
+  res_eqb (pair_eqb (pair_eqb (list_eqb (pair_eqb N.eqb rep_eqb)) (list_eqb (pair_eqb N.eqb N.eqb))) (list_eqb (pair_eqb N.eqb N.eqb))).
 
 (* monitors on the implementation's outcome, by interval arithmetic on the snapshot *)
 Definition snap_executed (snap : snap_t) (c : N) : list range :=
@@ -179,7 +180,9 @@ Definition snap_reports (snap : snap_t) (c : N) : list rep :=
 Definition hist_ok (i : hist_in) (o : hist_out) : bool :=
   let '(st, snap) := i in
   match o with
-  | Ok (pend, msgs) =>
+  | Ok (pend, msgs, omsgs) =>
+      (* what is transmitted is the outcome's report *)
+      list_eqb (pair_eqb N.eqb N.eqb) msgs omsgs &&
       (* a message the destination reported as executed at the start of the cycle is in no report *)
       forallb (fun cs => negb (in_runsb (snap_executed snap (fst cs)) (snd cs)) &&
                          existsb (fun r => N.leb (p_lo r) (snd cs) && N.leb (snd cs) (p_hi r)) (snap_reports snap (fst cs))) msgs &&
@@ -194,3 +197,9 @@ Definition hist_ok (i : hist_in) (o : hist_out) : bool :=
   | _ => false
   end.
 Definition hist_judge := judge hist_model hist_oeqb hist_ok (fun _ => 0%N).
+
+(* histories whose backlog is too big for everything to be fetched in one cycle: the monitors only (what is pending and
+   what it records, nothing executed is selected, nothing fully selected stays pending); how much is selected is not
+   compared with the everything-fits model *)
+Definition histmon_judge :=
+  judge (fun _ : hist_in => @Ok (list (N * rep) * list (N * N) * list (N * N)) ([], [], [])) (fun _ _ => true) hist_ok (fun _ => 0%N).
